@@ -408,12 +408,14 @@ fn boundary<'t, A>(tree: &Tokenized<'t, A>) -> Result<(), RuleError<'t>>
 where
     A: Spanned,
 {
+    // Only tokens of the same concatenation are adjacent.
     if let Some((left, right)) = walk::forward(tree)
-        .group_by(TokenEntry::position)
-        .into_iter()
-        .flat_map(|(_, group)| {
-            group
-                .map(TokenEntry::into_token)
+        .map(TokenEntry::into_token)
+        .filter(|token| token.is_concatenation())
+        .flat_map(|token| {
+            token
+                .concatenation()
+                .iter()
                 .tuple_windows::<(_, _)>()
                 .filter(|(left, right)| left.boundary().and(right.boundary()).is_some())
                 .map(|(left, right)| (*left.annotation().span(), *right.annotation().span()))
